@@ -106,7 +106,7 @@ def evaluate(
         else:
             return None
 
-    behavior = ak._util.behaviorof(*arrays)
+    behavior = ak._util.behaviorof(*arguments)
     out = ak._util.broadcast_and_apply(
         arrays, getfunction, behavior, allow_records=False, pass_depth=False
     )
@@ -146,7 +146,7 @@ def re_evaluate(local_dict=None):
         else:
             return None
 
-    behavior = ak._util.behaviorof(*arrays)
+    behavior = ak._util.behaviorof(*arguments)
     out = ak._util.broadcast_and_apply(
         arrays, getfunction, behavior, allow_records=False, pass_depth=False
     )
